@@ -5,16 +5,22 @@ import copy
 from pbt import progsim as PS, values as V, zoo
 
 UNENC = {'t': 'unencodable'}
+VECTOR = {'t': 'vector', 'v': [1, 2, 3]}
 
 
 def top_level_calls(prog):
     return [s for s in prog['steps'] if s['t'] in ('in', 'out')]
 
 
-def applicable_faults(prog, kinds=None):
-    """All single faults applicable to a program (sequential programs: faults target top-level steps)."""
+def applicable_faults(prog, kinds=None, extra=()):
+    """All single faults applicable to a program (sequential programs: faults target top-level steps).
+    extra: optional families - 'vector' (array-like values whose comparisons have no truth value)."""
     out = []
     for idx, s in enumerate(prog['steps']):
+        if 'vector' in extra and s['t'] in ('in', 'out'):
+            out.append({'kind': 'vector_ret', 'at': idx})
+            if s['t'] == 'out' or prog['ins'][s['i']]['kind'] != 'property':
+                out.append({'kind': 'vector_arg', 'at': idx})
         if s['t'] == 'in':
             d = prog['ins'][s['i']]
             if d['kind'] != 'property' and d.get('capture', 'all') in ('all', 'pos1', 'pos1_name_b'):
@@ -66,6 +72,10 @@ def apply_faults(prog, faults):
             s['ret'] = UNENC
         elif k == 'unserialisable_out_arg':
             s['a'] = UNENC
+        elif k == 'vector_ret':
+            s['ret'] = VECTOR
+        elif k == 'vector_arg':
+            s['a'] = VECTOR
         elif k == 'body_discard':
             s['beh'] = 'discard'
         elif k == 'body_discard_raise':
@@ -97,6 +107,10 @@ def compatible(f1, f2):
         if a in body and b in body:
             return False
         if {a, b} == {'unencodable_arg', 'unserialisable_out_arg'}:
+            return False
+        if 'vector_arg' in (a, b) and (a.startswith('un') or b.startswith('un')) and 'ret' not in a + b:
+            return False
+        if 'vector_ret' in (a, b) and 'unserialisable_ret' in (a, b):
             return False
     if f1['kind'].startswith('extractor') and f2['kind'].startswith('extractor'):
         return False
